@@ -859,3 +859,589 @@ Proof.
     try assumption; (apply Forall_app; split; [exact Hops|constructor; [|constructor]]);
     exists n'; (split; [reflexivity|exact Hb]).
 Qed.
+
+(* ================================================================================== *)
+(* 6. the composite operations, for any relation preserved by the events of one host  *)
+(* ================================================================================== *)
+
+Section KeepsNet.
+  Variable R : st -> st -> Prop.
+  Hypothesis HR : preorder R.
+  Variable h : bytes.
+  Hypothesis HioW : forall b, keeps R (io (EWrite h b)).
+  Hypothesis HioR : forall n, keeps R (io (ERead h n)).
+  Hypothesis HioC : keeps R (io (EConnect h)).
+  Hypothesis HioS : keeps R (io (EShutdown h)).
+  Hypothesis Hconns : forall x, keeps R (set_conns x).
+
+  Lemma keepsR_write_all fuel : forall buf, keeps R (write_all fuel h buf).
+  Proof.
+    induction fuel as [|f IH]; intros [|b0 buf]; cbn [write_all];
+      try (apply keeps_ret; exact HR); try (apply keeps_fail; exact HR).
+    apply keeps_bind; [exact HR|apply HioW|].
+    intros [ok|k| |e|bs| |e|]; try (apply keeps_fail; exact HR); [|apply IH].
+    destruct (k <=? 0); [apply keeps_fail; exact HR|apply IH].
+  Qed.
+
+  Lemma keepsR_send msg : keeps R (send h msg).
+  Proof.
+    apply keeps_bind; [exact HR|apply keeps_with_fuel; intros n; apply keepsR_write_all|].
+    intros _. apply keeps_ret; exact HR.
+  Qed.
+
+  Lemma keepsR_read_exact fuel : forall n acc, keeps R (read_exact fuel h n acc).
+  Proof.
+    induction fuel as [|f IH]; intros n acc; cbn [read_exact]; destruct (n <=? 0);
+      try (apply keeps_ret; exact HR); try (apply keeps_fail; exact HR).
+    apply keeps_bind; [exact HR|apply HioR|].
+    intros [ok|k| |e|[|b0 bs]| |e|]; try (apply keeps_fail; exact HR); apply IH.
+  Qed.
+
+  Lemma keepsR_read_chunks fuel : forall rem acc, keeps R (read_chunks fuel h rem acc).
+  Proof.
+    induction fuel as [|f IH]; intros rem acc; cbn [read_chunks]; destruct (rem <=? 0);
+      try (apply keeps_ret; exact HR); try (apply keeps_fail; exact HR).
+    cbv zeta. apply keeps_bind; [exact HR|apply keeps_with_fuel; intros g; apply keepsR_read_exact|].
+    intros b. apply IH.
+  Qed.
+
+  Lemma keepsR_read_exact_alloc size : keeps R (read_exact_alloc h size).
+  Proof. apply keeps_with_fuel. intros f. apply keepsR_read_chunks. Qed.
+
+  Lemma keepsR_get_response_size : keeps R (get_response_size h).
+  Proof.
+    apply keeps_bind; [exact HR|apply keeps_with_fuel; intros g; apply keepsR_read_exact|].
+    intros b. cbv zeta. destruct (be_dec_s b <? 0); [apply keeps_fail|apply keeps_ret]; exact HR.
+  Qed.
+
+  Lemma keepsR_new_conn : keeps R (new_conn h).
+  Proof.
+    apply keeps_bind; [exact HR|apply HioC|].
+    intros [[|]|k| |e|bs| |e|]; try (apply keeps_fail; exact HR). apply keeps_ret; exact HR.
+  Qed.
+
+  Lemma keepsR_shutdown : keeps R (shutdown h).
+  Proof. apply keeps_bind; [exact HR|apply HioS|]. intros _. apply keeps_ret; exact HR. Qed.
+
+  Lemma keepsR_get_conn : keeps R (get_conn h).
+  Proof.
+    apply keeps_bind; [exact HR|apply keeps_get_client; exact HR|]. intros c.
+    destruct (in_pool h (conns c)).
+    - destruct (idle_expired (cfg c)); [|apply keeps_ret; exact HR].
+      apply keeps_bind; [exact HR|apply keepsR_new_conn|]. intros _. apply keepsR_shutdown.
+    - apply keeps_bind; [exact HR|apply keepsR_new_conn|]. intros _. apply Hconns.
+  Qed.
+
+  Lemma keepsR_send_request payload : keeps R (send_request h payload).
+  Proof. apply keeps_bind; [exact HR|apply keeps_lift; exact HR|]. intros p. apply keepsR_send. Qed.
+
+  Lemma keepsR_get_response_bytes : keeps R (get_response_bytes h).
+  Proof. apply keeps_bind; [exact HR|apply keepsR_get_response_size|]. intros size. apply keepsR_read_exact_alloc. Qed.
+
+  Lemma keepsR_get_response {A} (d : dec A) : keeps R (get_response d h).
+  Proof.
+    apply keeps_bind; [exact HR|apply keepsR_get_response_bytes|]. intros b.
+    apply keeps_bind; [exact HR|apply keeps_lift; exact HR|]. intros [a rest]. apply keeps_ret; exact HR.
+  Qed.
+
+  Lemma keepsR_send_receive {A} (d : dec A) payload : keeps R (send_receive d h payload).
+  Proof.
+    apply keeps_bind; [exact HR|apply keepsR_get_conn|]. intros _.
+    apply keeps_bind; [exact HR|apply keepsR_send_request|]. intros _. apply keepsR_get_response.
+  Qed.
+End KeepsNet.
+
+Lemma keeps_set_conns_frame x : keeps same_but_conns (set_conns x).
+Proof.
+  intros s r s' H. unfold set_conns, mbind, get_client, set_client in H. inversion H; subst. repeat split.
+Qed.
+Lemma keeps_set_conns_ops P x : keeps (ops_in P) (set_conns x).
+Proof.
+  intros s r s' H. unfold set_conns, mbind, get_client in H.
+  match type of H with set_client ?c s = _ => pose proof (ops_in_set_client P c s) as Hc; rewrite H in Hc end.
+  exact Hc.
+Qed.
+
+(* ---- frame lemmas ------------------------------------------------------------------------ *)
+Lemma io_frame_conns op : keeps same_but_conns (io op).
+Proof. eapply keeps_weaken; [apply same_but_io_conns|apply keeps_io_frame]. Qed.
+
+Theorem frame_write_all : forall fuel h buf, keeps same_but_io (write_all fuel h buf).
+Proof. intros. apply keeps_write_all_frame. Qed.
+Theorem frame_send : forall h msg, keeps same_but_io (send h msg).
+Proof. intros h msg. apply (keepsR_send _ preorder_same_but_io h); intros; apply keeps_io_frame. Qed.
+Theorem frame_read_exact : forall fuel h n acc, keeps same_but_io (read_exact fuel h n acc).
+Proof. intros. apply keeps_read_exact_frame. Qed.
+Theorem frame_read_chunks : forall fuel h rem acc, keeps same_but_io (read_chunks fuel h rem acc).
+Proof. intros fuel h. apply (keepsR_read_chunks _ preorder_same_but_io h); intros; apply keeps_io_frame. Qed.
+Theorem frame_read_exact_alloc : forall h size, keeps same_but_io (read_exact_alloc h size).
+Proof. intros h. apply (keepsR_read_exact_alloc _ preorder_same_but_io h); intros; apply keeps_io_frame. Qed.
+Theorem frame_get_response_size : forall h, keeps same_but_io (get_response_size h).
+Proof. intros h. apply (keepsR_get_response_size _ preorder_same_but_io h); intros; apply keeps_io_frame. Qed.
+Theorem frame_new_conn : forall h, keeps same_but_io (new_conn h).
+Proof. intros h. apply (keepsR_new_conn _ preorder_same_but_io h); intros; apply keeps_io_frame. Qed.
+Theorem frame_shutdown : forall h, keeps same_but_io (shutdown h).
+Proof. intros h. apply (keepsR_shutdown _ preorder_same_but_io h); intros; apply keeps_io_frame. Qed.
+Theorem frame_send_request : forall h payload, keeps same_but_io (send_request h payload).
+Proof. intros h. apply (keepsR_send_request _ preorder_same_but_io h); intros; apply keeps_io_frame. Qed.
+Theorem frame_get_response_bytes : forall h, keeps same_but_io (get_response_bytes h).
+Proof. intros h. apply (keepsR_get_response_bytes _ preorder_same_but_io h); intros; apply keeps_io_frame. Qed.
+Theorem frame_get_response : forall A (d : dec A) h, keeps same_but_io (get_response d h).
+Proof. intros A d h. apply (keepsR_get_response _ preorder_same_but_io h); intros; apply keeps_io_frame. Qed.
+(* get_conn and send_receive may add h to the pool, nothing else *)
+Theorem frame_get_conn : forall h, keeps same_but_conns (get_conn h).
+Proof.
+  intros h. apply (keepsR_get_conn _ preorder_same_but_conns h); intros;
+    try apply io_frame_conns; apply keeps_set_conns_frame.
+Qed.
+Theorem frame_send_receive : forall A (d : dec A) h payload, keeps same_but_conns (send_receive d h payload).
+Proof.
+  intros A d h payload. apply (keepsR_send_receive _ preorder_same_but_conns h); intros;
+    try apply io_frame_conns; apply keeps_set_conns_frame.
+Qed.
+
+Lemma get_conn_pool h s r s' : get_conn h s = (r, s') ->
+  conns (cl s') = conns (cl s) \/ (in_pool h (conns (cl s)) = false /\ conns (cl s') = conns (cl s) ++ [h]).
+Proof.
+  intros H. unfold get_conn in H. unfold mbind at 1 in H. unfold get_client at 1 in H.
+  destruct (in_pool h (conns (cl s))) eqn:Ein.
+  - left. destruct (idle_expired (cfg (cl s))).
+    + assert (K : keeps same_but_io (let+ _ := new_conn h in shutdown h)).
+      { apply keeps_bind; [apply preorder_same_but_io|apply frame_new_conn|intros _; apply frame_shutdown]. }
+      destruct (K _ _ _ H) as (_ & _ & _ & _ & Hc & _). rewrite Hc. reflexivity.
+    + inversion H; subst. reflexivity.
+  - bind_inv H a s1 H1 H2.
+    + right. split; [reflexivity|]. destruct (frame_new_conn _ _ _ _ H1) as (_ & _ & _ & _ & Hc & _).
+      unfold set_conns, mbind, get_client, set_client in H2. inversion H2; subst. cbn [cl conns]. reflexivity.
+    + left. destruct (frame_new_conn _ _ _ _ H1) as (_ & _ & _ & _ & Hc & _). rewrite Hc. reflexivity.
+    + left. destruct (frame_new_conn _ _ _ _ H1) as (_ & _ & _ & _ & Hc & _). rewrite Hc. reflexivity.
+Qed.
+
+(* ---- every event of these operations concerns the host they were called with ------------- *)
+Definition conn_event (h : bytes) (e : ev_op) : Prop := e = EConnect h \/ e = EShutdown h.
+Definition read_event (h : bytes) (e : ev_op) : Prop := exists n, e = ERead h n.
+
+Theorem ops_send_receive : forall A (d : dec A) h payload, keeps (ops_in (on_host h)) (send_receive d h payload).
+Proof.
+  intros A d h payload. apply (keepsR_send_receive _ (preorder_ops_in _) h); intros;
+    try (apply keeps_io_ops; reflexivity); apply keeps_set_conns_ops.
+Qed.
+Theorem ops_get_conn : forall h, keeps (ops_in (conn_event h)) (get_conn h).
+Proof.
+  intros h. apply (keepsR_get_conn _ (preorder_ops_in _) h); intros.
+  - apply keeps_io_ops. left. reflexivity.
+  - apply keeps_io_ops. right. reflexivity.
+  - apply keeps_set_conns_ops.
+Qed.
+Theorem ops_get_response_bytes : forall h, keeps (ops_in (read_event h)) (get_response_bytes h).
+Proof.
+  intros h. apply (keepsR_get_response_bytes _ (preorder_ops_in _) h); intros.
+  apply keeps_io_ops. exists n. reflexivity.
+Qed.
+Theorem ops_get_response : forall A (d : dec A) h, keeps (ops_in (read_event h)) (get_response d h).
+Proof.
+  intros A d h. apply (keepsR_get_response _ (preorder_ops_in _) h); intros.
+  apply keeps_io_ops. exists n. reflexivity.
+Qed.
+
+(* ---- steps ------------------------------------------------------------------------------------ *)
+Lemma tracks_send h msg : tracks (send h msg).
+Proof.
+  apply tracks_bind; [apply tracks_with_fuel; intros n; apply tracks_write_all|intros _; apply tracks_ret].
+Qed.
+Lemma tracks_read_chunks fuel h : forall rem acc, tracks (read_chunks fuel h rem acc).
+Proof.
+  induction fuel as [|f IH]; intros rem acc; cbn [read_chunks]; destruct (rem <=? 0);
+    try apply tracks_ret; try apply tracks_fail.
+  cbv zeta. apply tracks_bind; [apply tracks_with_fuel; intros g; apply tracks_read_exact|intros b; apply IH].
+Qed.
+Lemma tracks_read_exact_alloc h size : tracks (read_exact_alloc h size).
+Proof. apply tracks_with_fuel. intros f. apply tracks_read_chunks. Qed.
+Lemma tracks_get_response_size h : tracks (get_response_size h).
+Proof.
+  apply tracks_bind; [apply tracks_with_fuel; intros g; apply tracks_read_exact|].
+  intros b. cbv zeta. destruct (be_dec_s b <? 0); [apply tracks_fail|apply tracks_ret].
+Qed.
+Lemma tracks_new_conn h : tracks (new_conn h).
+Proof.
+  apply tracks_bind; [apply tracks_io|].
+  intros [[|]|k| |e|bs| |e|]; try apply tracks_fail. apply tracks_ret.
+Qed.
+Lemma tracks_shutdown h : tracks (shutdown h).
+Proof. apply tracks_bind; [apply tracks_io|intros _; apply tracks_ret]. Qed.
+Lemma tracks_set_conns x : tracks (set_conns x).
+Proof. apply tracks_bind; [apply tracks_get_client|intros c; apply tracks_set_client]. Qed.
+Lemma tracks_get_conn h : tracks (get_conn h).
+Proof.
+  apply tracks_bind; [apply tracks_get_client|]. intros c. destruct (in_pool h (conns c)).
+  - destruct (idle_expired (cfg c)); [|apply tracks_ret].
+    apply tracks_bind; [apply tracks_new_conn|intros _; apply tracks_shutdown].
+  - apply tracks_bind; [apply tracks_new_conn|intros _; apply tracks_set_conns].
+Qed.
+Lemma tracks_send_request h payload : tracks (send_request h payload).
+Proof. apply tracks_bind; [apply tracks_lift|intros p; apply tracks_send]. Qed.
+Lemma tracks_get_response_bytes h : tracks (get_response_bytes h).
+Proof. apply tracks_bind; [apply tracks_get_response_size|intros size; apply tracks_read_exact_alloc]. Qed.
+Lemma tracks_get_response {A} (d : dec A) h : tracks (get_response d h).
+Proof.
+  apply tracks_bind; [apply tracks_get_response_bytes|]. intros b.
+  apply tracks_bind; [apply tracks_lift|]. intros [a rest]. apply tracks_ret.
+Qed.
+Lemma tracks_send_receive {A} (d : dec A) h payload : tracks (send_receive d h payload).
+Proof.
+  apply tracks_bind; [apply tracks_get_conn|]. intros _.
+  apply tracks_bind; [apply tracks_send_request|]. intros _. apply tracks_get_response.
+Qed.
+
+Theorem steps_read_chunks : forall fuel h rem acc s r s', read_chunks fuel h rem acc s = (r, s') -> steps s s'.
+Proof. intros fuel h rem acc. apply tracks_steps, tracks_read_chunks. Qed.
+Theorem steps_get_conn : forall h s r s', get_conn h s = (r, s') -> steps s s'.
+Proof. intros h. apply tracks_steps, tracks_get_conn. Qed.
+Theorem steps_send_request : forall h payload s r s', send_request h payload s = (r, s') -> steps s s'.
+Proof. intros h payload. apply tracks_steps, tracks_send_request. Qed.
+Theorem steps_get_response : forall A (d : dec A) h s r s', get_response d h s = (r, s') -> steps s s'.
+Proof. intros A d h. apply tracks_steps, tracks_get_response. Qed.
+Theorem steps_send_receive : forall A (d : dec A) h payload s r s',
+  send_receive d h payload s = (r, s') -> steps s s'.
+Proof. intros A d h payload. apply tracks_steps, tracks_send_receive. Qed.
+
+(* ================================================================================== *)
+(* 7. outcomes that never happen                                                      *)
+(* ================================================================================== *)
+
+Definition nofuel {A} (m : M A) : Prop := forall s r s', m s = (r, s') -> r <> Err EOutOfFuel.
+Definition nopanic {A} (m : M A) : Prop := forall s r s' w, m s = (r, s') -> r <> Panic w.
+
+Lemma nofuel_ret {A} (a : A) : nofuel (ret a).
+Proof. intros s r s' H. inversion H; subst. discriminate. Qed.
+Lemma nofuel_fail {A} e : e <> EOutOfFuel -> nofuel (@fail A e).
+Proof. intros He s r s' H. inversion H; subst. congruence. Qed.
+Lemma nofuel_get_client : nofuel get_client.
+Proof. intros s r s' H. inversion H; subst. discriminate. Qed.
+Lemma nofuel_set_client c : nofuel (set_client c).
+Proof. intros s r s' H. inversion H; subst. discriminate. Qed.
+Lemma nofuel_io op : nofuel (io op).
+Proof. intros s r s' H. unfold io in H. destruct (script s); inversion H; subst; discriminate. Qed.
+Lemma nofuel_bind {A B} (m : M A) (f : A -> M B) : nofuel m -> (forall a, nofuel (f a)) -> nofuel (mbind m f).
+Proof.
+  intros Hm Hf s r s' H. bind_inv H a s1 H1 H2.
+  - eapply Hf, H2.
+  - subst r. intros E. inversion E; subst. exact (Hm _ _ _ H1 eq_refl).
+  - subst r. discriminate.
+Qed.
+
+Lemma nopanic_ret {A} (a : A) : nopanic (ret a).
+Proof. intros s r s' w H. inversion H; subst. discriminate. Qed.
+Lemma nopanic_fail {A} e : nopanic (@fail A e).
+Proof. intros s r s' w H. inversion H; subst. discriminate. Qed.
+Lemma nopanic_get_client : nopanic get_client.
+Proof. intros s r s' w H. inversion H; subst. discriminate. Qed.
+Lemma nopanic_set_client c : nopanic (set_client c).
+Proof. intros s r s' w H. inversion H; subst. discriminate. Qed.
+Lemma nopanic_io op : nopanic (io op).
+Proof. intros s r s' w H. unfold io in H. destruct (script s); inversion H; subst; discriminate. Qed.
+Lemma nopanic_bind {A B} (m : M A) (f : A -> M B) : nopanic m -> (forall a, nopanic (f a)) -> nopanic (mbind m f).
+Proof.
+  intros Hm Hf s r s' w H. bind_inv H a s1 H1 H2.
+  - eapply Hf, H2.
+  - subst r. discriminate.
+  - subst r. intros E. inversion E; subst. exact (Hm _ _ _ _ H1 eq_refl).
+Qed.
+Lemma nopanic_with_fuel {A} (f : nat -> M A) : (forall n, nopanic (f n)) -> nopanic (with_fuel f).
+Proof. intros Hf s r s' w H. unfold with_fuel in H. eapply Hf, H. Qed.
+
+Lemma nopanic_write_all fuel h : forall buf, nopanic (write_all fuel h buf).
+Proof.
+  induction fuel as [|f IH]; intros [|b0 buf]; cbn [write_all]; try apply nopanic_ret; try apply nopanic_fail.
+  apply nopanic_bind; [apply nopanic_io|].
+  intros [ok|k| |e|bs| |e|]; try apply nopanic_fail; [|apply IH].
+  destruct (k <=? 0); [apply nopanic_fail|apply IH].
+Qed.
+Lemma nopanic_read_exact fuel h : forall n acc, nopanic (read_exact fuel h n acc).
+Proof.
+  induction fuel as [|f IH]; intros n acc; cbn [read_exact]; destruct (n <=? 0);
+    try apply nopanic_ret; try apply nopanic_fail.
+  apply nopanic_bind; [apply nopanic_io|].
+  intros [ok|k| |e|[|b0 bs]| |e|]; try apply nopanic_fail; apply IH.
+Qed.
+Lemma nopanic_read_chunks fuel h : forall rem acc, nopanic (read_chunks fuel h rem acc).
+Proof.
+  induction fuel as [|f IH]; intros rem acc; cbn [read_chunks]; destruct (rem <=? 0);
+    try apply nopanic_ret; try apply nopanic_fail.
+  cbv zeta. apply nopanic_bind; [apply nopanic_with_fuel; intros g; apply nopanic_read_exact|intros b; apply IH].
+Qed.
+Lemma nopanic_send h msg : nopanic (send h msg).
+Proof.
+  apply nopanic_bind; [apply nopanic_with_fuel; intros n; apply nopanic_write_all|intros _; apply nopanic_ret].
+Qed.
+Lemma nopanic_get_response_bytes h : nopanic (get_response_bytes h).
+Proof.
+  apply nopanic_bind.
+  - apply nopanic_bind; [apply nopanic_with_fuel; intros g; apply nopanic_read_exact|].
+    intros b. cbv zeta. destruct (be_dec_s b <? 0); [apply nopanic_fail|apply nopanic_ret].
+  - intros size. apply nopanic_with_fuel. intros f. apply nopanic_read_chunks.
+Qed.
+Lemma nopanic_new_conn h : nopanic (new_conn h).
+Proof.
+  apply nopanic_bind; [apply nopanic_io|].
+  intros [[|]|k| |e|bs| |e|]; try apply nopanic_fail. apply nopanic_ret.
+Qed.
+Lemma nopanic_shutdown h : nopanic (shutdown h).
+Proof. apply nopanic_bind; [apply nopanic_io|intros _; apply nopanic_ret]. Qed.
+Lemma nopanic_set_conns x : nopanic (set_conns x).
+Proof. apply nopanic_bind; [apply nopanic_get_client|intros c; apply nopanic_set_client]. Qed.
+Lemma nopanic_get_conn h : nopanic (get_conn h).
+Proof.
+  apply nopanic_bind; [apply nopanic_get_client|]. intros c. destruct (in_pool h (conns c)).
+  - destruct (idle_expired (cfg c)); [|apply nopanic_ret].
+    apply nopanic_bind; [apply nopanic_new_conn|intros _; apply nopanic_shutdown].
+  - apply nopanic_bind; [apply nopanic_new_conn|intros _; apply nopanic_set_conns].
+Qed.
+
+(* the fuel handed out by with_fuel is enough *)
+Lemma nofuel_write_all_wf h buf : nofuel (with_fuel (fun f => write_all f h buf)).
+Proof. intros s r s' H. unfold with_fuel in H. eapply write_all_fuel; [exact H|lia]. Qed.
+Lemma nofuel_read_exact_wf h n acc : nofuel (with_fuel (fun f => read_exact f h n acc)).
+Proof. intros s r s' H. unfold with_fuel in H. eapply read_exact_fuel; [exact H|lia]. Qed.
+Lemma nofuel_send h msg : nofuel (send h msg).
+Proof. apply nofuel_bind; [apply nofuel_write_all_wf|intros _; apply nofuel_ret]. Qed.
+
+Lemma read_chunks_fuel fuel h : forall rem acc s r s',
+  read_chunks fuel h rem acc s = (r, s') -> (length (script s) < fuel)%nat -> r <> Err EOutOfFuel.
+Proof.
+  induction fuel as [|f IH]; intros rem acc s r s' H Hf; [lia|].
+  cbn [read_chunks] in H. destruct (rem <=? 0) eqn:Er; [inversion H; subst; discriminate|].
+  cbv zeta in H. bind_inv H b s1 H1 H2.
+  - eapply IH; [exact H2|]. unfold with_fuel in H1.
+    pose proof (read_exact_ok_shrinks _ _ _ _ _ _ _ H1) as Hs. unfold read_chunk in Hs. lia.
+  - subst r. intros E. inversion E; subst. exact (nofuel_read_exact_wf _ _ _ _ _ _ H1 eq_refl).
+  - subst r. discriminate.
+Qed.
+Lemma nofuel_read_exact_alloc h size : nofuel (read_exact_alloc h size).
+Proof. intros s r s' H. unfold read_exact_alloc, with_fuel in H. eapply read_chunks_fuel; [exact H|lia]. Qed.
+Lemma nofuel_get_response_bytes h : nofuel (get_response_bytes h).
+Proof.
+  apply nofuel_bind.
+  - apply nofuel_bind; [apply nofuel_read_exact_wf|].
+    intros b. cbv zeta. destruct (be_dec_s b <? 0); [apply nofuel_fail; discriminate|apply nofuel_ret].
+  - intros size. apply nofuel_read_exact_alloc.
+Qed.
+Lemma nofuel_new_conn h : nofuel (new_conn h).
+Proof.
+  apply nofuel_bind; [apply nofuel_io|].
+  intros [[|]|k| |e|bs| |e|]; try (apply nofuel_fail; discriminate). apply nofuel_ret.
+Qed.
+Lemma nofuel_shutdown h : nofuel (shutdown h).
+Proof. apply nofuel_bind; [apply nofuel_io|intros _; apply nofuel_ret]. Qed.
+Lemma nofuel_set_conns x : nofuel (set_conns x).
+Proof. apply nofuel_bind; [apply nofuel_get_client|intros c; apply nofuel_set_client]. Qed.
+Lemma nofuel_get_conn h : nofuel (get_conn h).
+Proof.
+  apply nofuel_bind; [apply nofuel_get_client|]. intros c. destruct (in_pool h (conns c)).
+  - destruct (idle_expired (cfg c)); [|apply nofuel_ret].
+    apply nofuel_bind; [apply nofuel_new_conn|intros _; apply nofuel_shutdown].
+  - apply nofuel_bind; [apply nofuel_new_conn|intros _; apply nofuel_set_conns].
+Qed.
+
+(* ================================================================================== *)
+(* 8. the successful runs of the composite operations                                 *)
+(* ================================================================================== *)
+
+(* a sequence of reads on h that all delivered something (or were interrupted) *)
+Definition reads (h : bytes) (ops : list ev_op) (outs : list ev_out) (data : bytes) : Prop :=
+  length ops = length outs /\ Forall (is_read h) ops /\ forallb good_read outs = true /\ payloads outs = data.
+
+Lemma reads_nil h : reads h [] [] [].
+Proof. repeat split. constructor. Qed.
+Lemma reads_app h o1 u1 d1 o2 u2 d2 : reads h o1 u1 d1 -> reads h o2 u2 d2 -> reads h (o1 ++ o2) (u1 ++ u2) (d1 ++ d2).
+Proof.
+  intros (A1 & A2 & A3 & A4) (B1 & B2 & B3 & B4). repeat split.
+  - rewrite !app_length. lia.
+  - apply Forall_app. split; assumption.
+  - rewrite forallb_app, A3, B3. reflexivity.
+  - rewrite payloads_app, A4, B4. reflexivity.
+Qed.
+Lemma rsteps_is_reads h n ops outs data n' : rsteps h n ops outs data n' -> reads h ops outs data.
+Proof.
+  intros H. destruct (rsteps_reads _ _ _ _ _ _ H) as [H1 H2]. repeat split; try assumption.
+  - eapply rsteps_length; exact H.
+  - eapply rsteps_payloads; exact H.
+Qed.
+
+Lemma send_ok h msg s z s' : send h msg s = (Ok z, s') ->
+  exists ops outs chunks, wsteps h msg ops outs chunks [] /\ seg s s' outs ops /\ z = ulen msg.
+Proof.
+  intros H. unfold send in H. bind_inv H u s1 H1 H2; try discriminate.
+  inversion H2; subst. unfold with_fuel in H1. destruct u.
+  destruct (write_all_run _ _ _ _ _ _ H1) as [_ (ops & outs & chunks & b' & Hw & He)].
+  destruct He as [Hr' Hb Hs|o Hb Hbad Hs|Hb Hr' Hd Hs|Hb Hr' Hfu Hs]; try discriminate.
+  - subst b'. exists ops, outs, chunks. repeat split; try assumption; apply Hs.
+  - exfalso. exact (write_bad_not_ok _ _ Hbad eq_refl).
+Qed.
+
+Lemma read_chunks_ok fuel h : forall rem acc s bs s', read_chunks fuel h rem acc s = (Ok bs, s') ->
+  exists ops outs data, seg s s' outs ops /\ bs = acc ++ data /\ reads h ops outs data /\
+    rem <= ulen data /\ (Forall read_ok (combine ops outs) -> 0 <= rem -> ulen data = rem).
+Proof.
+  induction fuel as [|f IH]; intros rem acc s bs s' H; cbn [read_chunks] in H; destruct (rem <=? 0) eqn:Er;
+    try discriminate.
+  - inversion H; subst. exists [], [], []. repeat split; try apply reads_nil.
+    + rewrite app_nil_r. reflexivity.
+    + unfold ulen. cbn [length]. lia.
+    + unfold ulen. cbn [length]. lia.
+  - inversion H; subst. exists [], [], []. repeat split; try apply reads_nil.
+    + rewrite app_nil_r. reflexivity.
+    + unfold ulen. cbn [length]. lia.
+    + unfold ulen. cbn [length]. lia.
+  - cbv zeta in H. bind_inv H b s1 H1 H2; try discriminate. unfold with_fuel in H1.
+    destruct (read_exact_ok _ _ _ _ _ _ _ H1) as (ops1 & outs1 & data1 & n' & Hr & Hn' & Hs1 & Hb).
+    cbn [app] in Hb. subst b.
+    destruct (IH _ _ _ _ _ H2) as (ops2 & outs2 & data2 & Hs2 & Hbs & Hr2 & Hlen & Hex).
+    pose proof (rsteps_need _ _ _ _ _ _ Hr) as Hneed. pose proof (rsteps_length _ _ _ _ _ _ Hr) as L1.
+    exists (ops1 ++ ops2), (outs1 ++ outs2), (data1 ++ data2). split; [|split; [|split; [|split]]].
+    + eapply seg_trans; eassumption.
+    + rewrite Hbs, app_assoc. reflexivity.
+    + apply reads_app; [eapply rsteps_is_reads; exact Hr|exact Hr2].
+    + unfold ulen in *. rewrite app_length. lia.
+    + intros Hb H0. rewrite combine_app in Hb by exact L1. apply Forall_app in Hb. destruct Hb as [Hb1 Hb2].
+      assert (0 <= n') by (eapply rsteps_bounded; [exact Hr|exact Hb1|unfold read_chunk; lia]).
+      assert (ulen data2 = rem - Z.min rem read_chunk) by (apply Hex; [exact Hb2|unfold read_chunk; lia]).
+      unfold ulen in *. rewrite app_length. lia.
+Qed.
+
+Lemma get_response_bytes_ok h s b s' : get_response_bytes h s = (Ok b, s') ->
+  exists ops outs b0, seg s s' outs ops /\ reads h ops outs (b0 ++ b) /\
+    4 <= ulen b0 /\ 0 <= be_dec_s b0 /\ be_dec_s b0 <= ulen b /\
+    (Forall read_ok (combine ops outs) -> ulen b0 = 4 /\ ulen b = be_dec_s b0).
+Proof.
+  intros H. unfold get_response_bytes in H. bind_inv H size s1 H1 H2; try discriminate.
+  unfold get_response_size in H1. bind_inv H1 b0 s0 H3 H4; try discriminate.
+  cbv zeta in H4. destruct (be_dec_s b0 <? 0) eqn:Eneg; [discriminate|]. inversion H4; subst. clear H4.
+  unfold with_fuel in H3.
+  destruct (read_exact_ok _ _ _ _ _ _ _ H3) as (ops1 & outs1 & data1 & n' & Hr & Hn' & Hs1 & Hb).
+  cbn [app] in Hb. subst data1.
+  unfold read_exact_alloc, with_fuel in H2.
+  destruct (read_chunks_ok _ _ _ _ _ _ _ H2) as (ops2 & outs2 & data2 & Hs2 & Hbs & Hr2 & Hlen & Hex).
+  cbn [app] in Hbs. subst data2.
+  pose proof (rsteps_need _ _ _ _ _ _ Hr) as Hneed. pose proof (rsteps_length _ _ _ _ _ _ Hr) as L1.
+  exists (ops1 ++ ops2), (outs1 ++ outs2), b0.
+  split; [apply (seg_trans _ _ _ _ _ _ _ Hs1 Hs2)|].
+  split; [apply reads_app; [eapply rsteps_is_reads; exact Hr|exact Hr2]|].
+  split; [lia|]. split; [lia|]. split; [exact Hlen|].
+  intros H. rewrite combine_app in H by exact L1. apply Forall_app in H. destruct H as [Hb1 Hb2].
+  assert (0 <= n') by (eapply rsteps_bounded; [exact Hr|exact Hb1|lia]).
+  split; [lia|]. apply Hex; [exact Hb2|lia].
+Qed.
+
+Lemma get_response_inv {A} (d : dec A) h s r s' : get_response d h s = (r, s') ->
+  (exists b, get_response_bytes h s = (Ok b, s') /\
+             r = match d b with Ok (a, _) => Ok a | Err e => Err e | Panic w => Panic w end) \/
+  (exists e, get_response_bytes h s = (Err e, s') /\ r = Err e).
+Proof.
+  intros H. unfold get_response in H. bind_inv H b s1 H1 H2.
+  - left. exists b. unfold mbind, lift in H2.
+    destruct (d b) as [[a rest]|e|w]; inversion H2; subst; (split; [exact H1|reflexivity]).
+  - right. exists b. split; assumption.
+  - exfalso. exact (nopanic_get_response_bytes _ _ _ _ _ H1 eq_refl).
+Qed.
+
+Lemma send_receive_ok {A} (d : dec A) h p s a s' : send_receive d h (Ok p) s = (Ok a, s') ->
+  exists s1 s2 z b rest, get_conn h s = (Ok tt, s1) /\ send h (frame p) s1 = (Ok z, s2) /\
+    get_response_bytes h s2 = (Ok b, s') /\ d b = Ok (a, rest).
+Proof.
+  intros H. unfold send_receive in H. bind_inv H u s1 H1 H2; try discriminate. destruct u.
+  bind_inv H2 z s2 H3 H4; try discriminate.
+  unfold send_request in H3. unfold mbind at 1 in H3. unfold lift in H3.
+  destruct (get_response_inv _ _ _ _ _ H4) as [[b [Hb Hr]]|[e [_ Hr]]]; [|discriminate].
+  destruct (d b) as [[a' rest]|e|w] eqn:Ed; inversion Hr; subst.
+  exists s1, s2, z, b, rest. repeat split; assumption.
+Qed.
+
+Lemma frame_nonempty p : frame p <> [].
+Proof. unfold frame, enc_i32. cbn [be_enc app]. discriminate. Qed.
+
+(* a successful exchange consumed at least one answer *)
+Lemma send_receive_ok_shrinks {A} (d : dec A) h p s a s' :
+  send_receive d h (Ok p) s = (Ok a, s') -> (length (script s') < length (script s))%nat.
+Proof.
+  intros H. destruct (send_receive_ok _ _ _ _ _ _ H) as (s1 & s2 & z & b & rest & H1 & H2 & H3 & _).
+  pose proof (ext_script_le _ _ (tracks_ext _ (tracks_get_conn h) _ _ _ H1)).
+  pose proof (ext_script_le _ _ (tracks_ext _ (tracks_get_response_bytes h) _ _ _ H3)).
+  unfold send in H2. bind_inv H2 u s3 H6 H7; try discriminate. inversion H7; subst. destruct u.
+  unfold with_fuel in H6. pose proof (write_all_ok_shrinks _ _ _ _ _ H6 (frame_nonempty p)). lia.
+Qed.
+
+(* ================================================================================== *)
+(* 9. get_conn_any                                                                    *)
+(* ================================================================================== *)
+
+Section KeepsAny.
+  Variable R : st -> st -> Prop.
+  Hypothesis HR : preorder R.
+  Hypothesis HioC : forall h, keeps R (io (EConnect h)).
+  Hypothesis HioS : forall h, keeps R (io (EShutdown h)).
+  Hypothesis Hpop : keeps R pop_any.
+
+  Lemma keepsR_get_conn_any : keeps R get_conn_any.
+  Proof.
+    apply keeps_bind; [exact HR|apply keeps_get_client; exact HR|]. intros c.
+    destruct (conns c) as [|first rest]; [apply keeps_ret; exact HR|].
+    apply keeps_bind; [exact HR|exact Hpop|]. intros pick. cbv zeta.
+    destruct (idle_expired (cfg c)); [|apply keeps_ret; exact HR].
+    apply keeps_bind; [exact HR|apply keeps_mtry, keepsR_new_conn; [exact HR|apply HioC]|].
+    intros [u|e|w]; try (apply keeps_ret; exact HR).
+    apply keeps_bind; [exact HR|apply keepsR_shutdown; [exact HR|apply HioS]|]. intros _. apply keeps_ret; exact HR.
+  Qed.
+End KeepsAny.
+
+Lemma pop_any_seg s r s' : pop_any s = (r, s') -> seg s s' [] [] /\ cl s' = cl s.
+Proof.
+  unfold pop_any. destruct (anyq s); intros H; inversion H; subst; (split; [split; reflexivity|reflexivity]).
+Qed.
+
+Lemma keeps_pop_any_ext : keeps ext pop_any.
+Proof. intros s r s' H. exists [], []. apply (pop_any_seg _ _ _ H). Qed.
+Lemma keeps_pop_any_ops P : keeps (ops_in P) pop_any.
+Proof.
+  intros s r s' H. destruct (pop_any_seg _ _ _ H) as [Hs _]. split; [exists [], []; exact Hs|].
+  rewrite (seg_performed _ _ _ _ Hs). constructor.
+Qed.
+
+Definition same_cl (s s' : st) : Prop := cl s' = cl s.
+Lemma preorder_same_cl : preorder same_cl.
+Proof. split; [intros s; reflexivity|intros s s1 s2 H1 H2; unfold same_cl in *; congruence]. Qed.
+Lemma keeps_io_same_cl op : keeps same_cl (io op).
+Proof. intros s r s' H. apply (keeps_io_frame op _ _ _ H). Qed.
+
+Lemma keeps_ext_io op : keeps ext (io op).
+Proof. apply tracks_ext, tracks_io. Qed.
+
+Theorem ext_get_conn_any : keeps ext get_conn_any.
+Proof.
+  apply keepsR_get_conn_any; [apply preorder_ext|intros; apply keeps_ext_io|intros; apply keeps_ext_io|
+                              apply keeps_pop_any_ext].
+Qed.
+Theorem frame_get_conn_any : keeps same_cl get_conn_any.
+Proof.
+  apply keepsR_get_conn_any; [apply preorder_same_cl|intros; apply keeps_io_same_cl|intros; apply keeps_io_same_cl|].
+  intros s r s' H. apply (pop_any_seg _ _ _ H).
+Qed.
+Theorem ops_get_conn_any : keeps (ops_in not_write) get_conn_any.
+Proof.
+  apply keepsR_get_conn_any; [apply preorder_ops_in| | |apply keeps_pop_any_ops];
+    intros h; apply keeps_io_ops; exact I.
+Qed.
+
+(* it always answers (None when the pool is empty or the re-connect failed) *)
+Lemma get_conn_any_ok s r s' : get_conn_any s = (r, s') -> exists oh, r = Ok oh.
+Proof.
+  intros H. unfold get_conn_any in H. unfold mbind at 1 in H. unfold get_client at 1 in H.
+  destruct (conns (cl s)) as [|first rest]; [inversion H; subst; eexists; reflexivity|].
+  unfold mbind at 1 in H. destruct (pop_any s) as [[pick|e|w] s1] eqn:Ep;
+    [|unfold pop_any in Ep; destruct (anyq s); discriminate|unfold pop_any in Ep; destruct (anyq s); discriminate].
+  cbv zeta in H. destruct (idle_expired (cfg (cl s))); [|inversion H; subst; eexists; reflexivity].
+  unfold mbind at 1 in H. unfold mtry in H.
+  destruct (new_conn _ s1) as [[u|e|w] s2] eqn:En.
+  - unfold mbind, shutdown in H. unfold mbind, io in H.
+    destruct (script s2); inversion H; subst.
+Abort.
